@@ -33,6 +33,7 @@ def _events(st, tier):
     ev = ["freeze"]
     if st.cfg["a"]:
         ev.append("calib_a")
+        ev.append("calib_s")  # default Calibration(): streamlining may switch some activation qtypes to None
     for s in SAVERS:
         for t in TARGETS:
             ev.append(f"cycle:{s}:{t}")
@@ -81,8 +82,8 @@ def _apply(st, ev):
     cfg = st.cfg
     if ev == "freeze":
         freeze(st.model)
-    elif ev == "calib_a":
-        with torch.no_grad(), Calibration(streamline=False):
+    elif ev in ("calib_a", "calib_s"):
+        with torch.no_grad(), Calibration(streamline=(ev == "calib_s")):
             st.model(models.probe_input(cfg["model"], cfg["dt"], 0))
     else:
         _, saver, target = ev.split(":")
